@@ -258,6 +258,9 @@ def gen_math_items(ctx, n):
 ALPHA = ["a", "b", "c", "x", "-", "0", "1", " ", "é", "€", "\U0001d4b3", "'", "%", "/", "?", "#", "~", "[", "&", "<", "+", "A", "z", " "]
 
 
+PAIRS = ["a", "b", "1", "\U0001d4b3", "\U0001d4b4", "\U00010000", "\U0010ffff", "\U0001d4b3", "é"]
+
+
 def rstr(r, lo, hi, alpha=None, bmp=False):
     al = alpha or ALPHA
     s = "".join(r.choice(al) for _ in range(r.randrange(lo, hi + 1)))
@@ -277,15 +280,17 @@ def gen_string_items(ctx, n):
         k = r.random()
         if k < 0.3:
             ln = r.choice(["0", "1", "2", "3", "4", "5", "7", "8", "9", "16", "17", "2.5", "3.49", "0.5", "0.4", "33", "'3'"])
-            pad = r.choice([None, "", "a", "ab", "abc", "abcd", " ", "-=", rstr(r, 1, 5), rstr(r, 2, 3), "x\U0001d4b3", "\U0001d4b3"])
+            pad = r.choice([None, "", "a", "ab", "abc", "abcd", " ", "-=", rstr(r, 1, 5), rstr(r, 2, 3), "x\U0001d4b3", "\U0001d4b3",
+                            "\U0001d4b3\U0001d4b4", "a\U0001d4b3b", rstr(r, 1, 4, PAIRS)])
             lnast = lit("3") if ln == "'3'" else ("num", ln)
             ast = fn("str:padding", lnast) if pad is None else fn("str:padding", lnast, lit(pad))
             add("str", ast, "str:padding", ("pad", ln, pad))
         elif k < 0.65:
-            p = rstr(r, 0, 9)
-            t = rstr(r, 0, 4) if r.random() < 0.7 else rstr(r, len(p), len(p) + 2)
+            heavy = r.random() < 0.3      # strings with several surrogate pairs: lengths in units and in characters differ
+            p = rstr(r, 0, 9, PAIRS if heavy else None)
+            t = rstr(r, 0, 4, PAIRS if heavy else None) if r.random() < 0.7 else rstr(r, len(p), len(p) + 2)
             if r.random() < 0.15:
-                t = rstr(r, len(p), len(p))
+                t = rstr(r, len(p), len(p), PAIRS if heavy and r.random() < 0.5 else None)
             al = r.choice([None, "left", "right", "center", "center", "right", "centre", "Center", "RIGHT", "", "cent", "righ", " center",
                            "centered", "rightmost", "center ", "lef", "middle"])
             ast = fn("str:align", lit(t), lit(p)) if al is None else fn("str:align", lit(t), lit(p), lit(al))
@@ -676,7 +681,7 @@ def run_stream(ctx, exe, model, batches, known, hits, stats):
             mv = model_value(it, mres.get(cid))
             got = b["vals"][i]
             ctx.cov["traces_validated_against_impl"] += 1
-            if isinstance(got, tuple) and got[0] == "err" and any(NONBMP(s) for s in (it["model"][1:] if it["model"][0] in ("pad", "align") else []) if isinstance(s, str)):
+            if ("K6" in known or "K6x" in known) and isinstance(got, tuple) and got[0] == "err" and any(NONBMP(s) for s in (it["model"][1:] if it["model"][0] in ("pad", "align") else []) if isinstance(s, str)):
                 continue      # a unit-level cut through a surrogate pair is not serialisable (K6 territory)
             if not same_value(got, mv):
                 corr.append({"expr": xpgen.p_expr(it["ast"]), "impl": repr(got)[:200], "model": repr(mv)[:200],
@@ -831,11 +836,28 @@ def run_part(ctx):
     if not ok_lib:
         ctx.broken.append("library does not build from the working tree: " + liblog[-500:])
         return
-    proved = ctx.prove(["Properties_C02x.v"], ["GenXpx"])
+    proved = ctx.prove(["Properties_C02x.v"], ["GenXpx", "GenNum"])
     model, ok_m, mlog = core.build_model("xpx")
     if not ok_m:
         ctx.broken.append("xpx: model extraction/build failed: " + mlog[-500:])
         model = None
+    # which form of str:padding / str:align THIS tree has: the translator's answer from the source (what GenXpx.v was just
+    # regenerated from); when the translator does not recognise the functions (reported above as broken), whether they use
+    # XPathCharacters at all.  K6x is a known finding only of the code-unit form.  The extracted model must carry the same flag.
+    try:
+        cp_flag = bool(core.srcfacts.GENERATORS["GenXpx"]()[1]["exslt_padding_align_count_characters"])
+    except Exception:
+        try:
+            cp_flag = "XPathCharacters::" in open(os.path.join(core.srcfacts.SRC, "XalanEXSLT", "XalanEXSLTString.cpp"), encoding="utf-8", errors="replace").read()
+        except OSError:
+            cp_flag = False
+    if model:
+        rc_f, res_f, raw_f = core.run_lines_parallel(model, ["f flag"])
+        mflag = {"characters": True, "units": False}.get((res_f.get("f") or "").strip())
+        if mflag is not None and mflag != cp_flag:
+            ctx.broken.append("xpx: the extracted model has the %s form of str:padding / str:align, the source the %s form (GenXpx.v not regenerated)"
+                              % ("character" if mflag else "code-unit", "character" if cp_flag else "code-unit"))
+    ctx.notes["xpx_padding_align_count_characters"] = cp_flag
     exe, ok_h, hlog = xsltrun.build()
     if not ok_h:
         ctx.broken.append("xpx: the xslt harness does not compile against the working tree: " + hlog[-500:])
@@ -844,6 +866,8 @@ def run_part(ctx):
     for k in ctx.known.for_property("C02"):
         if k["key"] in ("K6", "K6x", "K13") or k["key"].startswith("K-C02x"):
             known[k["key"]] = k
+    if cp_flag:
+        known.pop("K6x", None)      # repaired: corpus/C02x/k6x_padding_align.jsonl and the pair streams are regression cases
     for k in ctx.known.for_property("C03"):
         if k["key"] in ("K-new-1", "K-new-2"):
             known["C03:" + k["key"]] = k
